@@ -62,6 +62,11 @@ def execute(run, cov, log):
     orthosim.execute(run, cov, log)
 
 
+def preload():
+    from sim import seams
+    seams.preload()
+
+
 def shrink(run):
     return orthosim.shrink_run(run)
 
